@@ -1034,12 +1034,14 @@ where
             JSXElementName::JSXMemberExpr(JSXMemberExpr { prop, .. }) => &*prop.sym,
             JSXElementName::JSXNamespacedName(JSXNamespacedName { name, .. }) => &*name.sym,
         };
-        let should_transformed_to_slots = !self
-            .vue_imports
-            .get(FRAGMENT)
-            .map(|ident| &*ident.sym == name)
-            .unwrap_or_default()
-            && name != KEEP_ALIVE;
+        // `Fragment`, `_Fragment` and `_Fragment1` (renamed by hygiene) all denote Vue's Fragment
+        let is_fragment = name
+            .strip_prefix('_')
+            .unwrap_or(name)
+            .strip_prefix(FRAGMENT)
+            .map(|suffix| suffix.bytes().all(|byte| byte.is_ascii_digit()))
+            .unwrap_or_default();
+        let should_transformed_to_slots = !is_fragment && name != KEEP_ALIVE;
 
         if matches!(element_name, JSXElementName::JSXMemberExpr(..)) {
             should_transformed_to_slots
